@@ -157,9 +157,31 @@ pub fn run(ctx: &mut Ctx) {
                         _ => rng.range(1, 9),
                     };
                     let mut k = 0;
+                    // the same steps on a generator at 0 dB: whatever a step leaves in the part of the
+                    // caller's buffer behind the frame (live samples of a ring buffer, say) must not
+                    // depend on the volume ("changes nothing else")
+                    let mut g0 = base.generator(labels.clone()).ok();
                     while k < steps {
-                        let mut buf = vec![0.0; fp + if k % 2 == 1 { 3 } else { 0 }];
+                        let extra = if k % 2 == 1 { 3 } else { 0 };
+                        let mut buf = vec![0.0; fp + extra];
+                        for (j, x) in buf[fp..].iter_mut().enumerate() {
+                            *x = 0.375 + (k + j) as f64;
+                        }
+                        let mut buf0 = buf.clone();
                         let r = g.generate_step(&mut buf);
+                        if let Some(g0) = g0.as_mut() {
+                            let r0 = g0.generate_step(&mut buf0);
+                            if r0 == r && extra > 0 {
+                                ctx.count("steps_with_live_samples_behind_the_frame", 1.0);
+                                if !buf[fp..].iter().zip(&buf0[fp..]).all(|(a, b)| a.to_bits() == b.to_bits()) {
+                                    ctx.violation(
+                                        "volume-changes-the-callers-buffer-behind-the-frame",
+                                        d(J::obj().set("step", k).set("at_0db", J::Arr(buf0[fp..].iter().map(|x| J::from(*x)).collect())).set("at_v", J::Arr(buf[fp..].iter().map(|x| J::from(*x)).collect()))),
+                                    );
+                                    return;
+                                }
+                            }
+                        }
                         if r == 0 {
                             break;
                         }
